@@ -142,6 +142,17 @@ def hashable_leaves():
     )
 
 
+WIDE_MEMBERS = [("lit", x) for x in ["0", "1", "2", "3", "4", "5", "6", "7", "8", "False", "True", "1.0", '"a"', '"b"', "None", "(0, 0)", "(1, 1)",
+                                      '(2, "x")', "(3,)", "[1, 2]", '["a"]', '{"a": 1}', 'b"a"', "E.a", "(True, 2)", "(1, 2)"]] + \
+    [("cls", "A"), ("cls", "C"), ("cls", "bytes")]
+
+
+def wide_union():
+    """A union of 10-13 members (pyanalyze uses an indexed lookup from 10 members on): literals that are equal
+    across types, several literals of one class with different contents, unhashable literals."""
+    return st.lists(st.sampled_from(WIDE_MEMBERS), min_size=10, max_size=13, unique_by=repr).map(lambda xs: ("union", list(xs)))
+
+
 def values(any_ok=False, typevars=False, callables=True, max_leaves=8):
     def extend(ch):
         opts = [
@@ -168,7 +179,8 @@ def values(any_ok=False, typevars=False, callables=True, max_leaves=8):
             opts.append(st.tuples(st.lists(ch, max_size=2), ch).map(lambda t: ("call", t[0], t[1])))
         return st.one_of(*opts)
 
-    return st.recursive(leaves(any_ok=any_ok, typevars=typevars), extend, max_leaves=max_leaves)
+    base = leaves(any_ok=any_ok, typevars=typevars)
+    return st.recursive(st.one_of(base, base, base, base, wide_union()), extend, max_leaves=max_leaves)
 
 
 def permuted_union(ch):
